@@ -789,6 +789,41 @@ def fp_functional(c):
     return True
 
 
+MATCH_RE = re.compile(r"match\([A-Za-z_.]+, '((?:[^'\\]|\\.)*)'\)")
+
+
+def statement_patterns(c):
+    return sorted(set(unquote("'" + m + "'") for m in MATCH_RE.findall(c.get("sql") or "")))
+
+
+def gap_line(c):
+    """match() patterns of the implementation's statement that the case's oracle table (made by Go for the patterns the
+    CORRECT planner builds) does not hold: for patterns of the PromRegex.v fragment the extracted model computes re_search on
+    every string of the case's database (the driver validates the parse: re_wf, re_print = text); without this the
+    interpreter answers `false` for them and a changed wrapper text can only be reported as no-failing-input-found"""
+    known_p = {e["p"] for e in c.get("oracle") or []}
+    items = []
+    for p in statement_patterns(c):
+        if p in known_p:
+            continue
+        try:
+            items.append((p, parse_regex(p)))
+        except (ReUnsupported, RecursionError, IndexError):
+            continue
+    if not items:
+        return None
+    vals = {""}
+    if c.get("db"):
+        for s0 in c["db"].get("series") or []:
+            vals.update(v for _, v in s0["labels"])
+    for p0 in c.get("pdb") or []:
+        vals.update(v for _, v in (p0.get("labels") or []))
+        vals.update(v for _, v in (p0.get("stu") or []))
+        vals.update([p0["service"], p0["type_id"]] + p0["type_id"].split(":"))
+    c["gap_patterns"] = [p for p, _ in items]
+    return "(gap %d %s %s)" % (c["id"], sx_list(["(%s %s)" % (sx_str(p), sx_re(t)) for p, t in items]), sx_list([sx_str(v) for v in sorted(vals)]))
+
+
 def run_shard(ck, cases, idx):
     cases = cases + expand_multi(cases) + expand_pseries(cases)
     byid = {c["id"]: c for c in cases}
@@ -815,6 +850,9 @@ def run_shard(ck, cases, idx):
                 tree = None
             if tree:
                 orc = c.get("oracle") or []
+                g = gap_line(c)
+                if g:
+                    lines.append(g)
                 lines.append("(psem %d %s %s %d %d %s %s %s %s %s %s)" % (
                     cid, sx_bool(c["ctx"]["cluster"]), sx_str(t["prof_gin"]), c["ctx"]["from_ns"], c["ctx"]["to_ns"],
                     sx_list(["(%s %s %s)" % (sx_str(x["n"]), OPS[x["op"]], sx_str(x["v"])) for x in c.get("sels") or []]),
@@ -849,6 +887,9 @@ def run_shard(ck, cases, idx):
                     parse_failures.append((c, str(ex)))
                     continue
                 orc = c.get("oracle") or []
+                g = gap_line(c)
+                if g:
+                    lines.append(g)
                 lines.append("(sem %d %s %s %s %s %s %s %s %s)" % (
                     cid, cl, sx_hints(h), sx_matchers(c.get("ms")), sx_db(c["db"]), tree, sx_str(c["sql"]),
                     sx_list(["(%s %s %s)" % (sx_str(e["p"]), sx_str(e["v"]), sx_bool(e["search"])) for e in orc]),
@@ -862,6 +903,9 @@ def run_shard(ck, cases, idx):
                     parse_failures.append((c, str(ex)))
                     continue
                 orc = c.get("oracle") or []
+                g = gap_line(c)
+                if g and not any(ln.startswith("(gap %d " % cid) for ln in lines[-3:]):
+                    lines.append(g)
                 lines.append("(down %d %s %s %s %s %s %s %s %s)" % (
                     cid, cl, sx_hints(h), sx_matchers(c.get("ms")), sx_db(c["db"]), tree, sx_str(c["sql"]),
                     sx_list(["(%s %s %s)" % (sx_str(e["p"]), sx_str(e["v"]), sx_bool(e["search"])) for e in orc]),
@@ -879,7 +923,7 @@ def run_shard(ck, cases, idx):
     if rc != 0:
         ck.obligation("selection cases evaluated by the extracted models", False, out[-2500:])
         return False
-    res = {"sql": {}, "prof": {}, "lbl": {}, "sel": {}, "sem": {}, "psem": {}, "down": {}, "re": {}}
+    res = {"sql": {}, "prof": {}, "lbl": {}, "sel": {}, "sem": {}, "psem": {}, "down": {}, "re": {}, "gap": {}}
     for ln in out.splitlines():
         p = ln.split()
         if len(p) >= 3 and p[0] in res:
@@ -887,6 +931,12 @@ def run_shard(ck, cases, idx):
 
     def dec(x):
         return None if x == "-" else bytes.fromhex(x)
+
+    # statement patterns answered by the regex model instead of the Go-made table (only a changed planner produces them)
+    for cid, v in res["gap"].items():
+        c = byid[cid]
+        c["gap_computed"] = [p for p, ok in zip(c.get("gap_patterns") or [], v) if ok == "1"]
+        ck.extra["statement_patterns_answered_by_regex_model"] = ck.extra.get("statement_patterns_answered_by_regex_model", 0) + len(c["gap_computed"])
 
     # ---- 0. the regular-expression reading model/PromRegex.v against Go's regexp and labels.Matcher
     re_bad, re_pairs = [], 0
@@ -1043,14 +1093,14 @@ def run_shard(ck, cases, idx):
             # the interpreter (a default, not RE2's answer): prefer a failing case without such a pattern; if every one has
             # it, the matcher set + database are still printed, but the replay is not claimed to be a failing input
             def oracle_gap(c):
-                known_p = {e["p"] for e in c.get("oracle") or []}
-                pats = [unquote("'" + m + "'") for m in re.findall(r"match\([A-Za-z_.]+, '((?:[^'\\]|\\.)*)'\)", c.get("sql") or "")]
-                return sorted(set(x for x in pats if x not in known_p))
+                known_p = {e["p"] for e in c.get("oracle") or []} | set(c.get("gap_computed") or [])
+                return [x for x in statement_patterns(c) if x not in known_p]
             worst = min(bad[code], key=lambda c: (bool(oracle_gap(c)),) + size(c))
             gap = oracle_gap(worst)
             if gap:
                 ck.log("the failing statements carry match() patterns outside the oracle table (answered false by default): %s" % gap[:3])
             ck.violation({"property": "C17", "part": "selection", "kind": VERDICTS[code], "patterns_outside_oracle_table": gap,
+                          "patterns_answered_by_the_regex_model_PromRegex": worst.get("gap_computed") or [],
                           "matchers": worst.get("ms") or worst.get("sels"), "hints": worst.get("hints"),
                           "database": worst.get("db") or worst.get("pdb"), "sql": worst["sql"],
                           "case": slim(worst), "replay": "harness promsel --cases <file with the case line>, then checks/promsel.py sem_verdict"},
